@@ -144,14 +144,77 @@ func Open(path string, fk *fake.Node, hooks *sqlw.Hooks, wal bool) (*Daemon, err
 		return nil, err
 	}
 	n.Pegnet.DB.Close()
-	dsn := path + ".v4"
-	if wal {
-		dsn += "?_journal=WAL&"
-	}
-	db := sqlw.Open(dsn, hooks)
+	db := sqlw.Open(connDSN(path, wal), hooks)
+	checkConn(db, wal)
 	n.Pegnet.DB = db.DB
 	n.FactomClient.Factomd.Transport = fk
 	return &Daemon{Path: path, Node: n, DB: db, Fake: fk, WAL: wal}, nil
+}
+
+// The wrapped connection must be configured like the one the code under test opens for itself (journal mode, synchronous,
+// locking mode, cache size ...: they decide what a crash leaves behind and who blocks whom). The data source name is a local
+// variable of pegnet.Init, so the settings are read back, once per process and mode, from a connection opened by the real
+// pegnet.Init on a scratch file, and turned into the equivalent go-sqlite3 parameters.
+var connPragmaNames = []string{"journal_mode", "synchronous", "locking_mode", "busy_timeout", "foreign_keys", "cache_size", "auto_vacuum", "secure_delete", "recursive_triggers", "cache_spill", "temp_store", "read_uncommitted", "query_only"}
+
+var (
+	connMu      sync.Mutex
+	connLearned = map[bool]map[string]string{}
+)
+
+func readPragmas(q interface {
+	QueryRow(string, ...interface{}) *sql.Row
+}) map[string]string {
+	out := map[string]string{}
+	for _, nm := range connPragmaNames {
+		var v sql.NullString
+		if err := q.QueryRow("PRAGMA " + nm).Scan(&v); err == nil {
+			out[nm] = strings.ToLower(v.String)
+		}
+	}
+	return out
+}
+
+func connSettings(wal bool) map[string]string {
+	connMu.Lock()
+	defer connMu.Unlock()
+	if m, ok := connLearned[wal]; ok {
+		return m
+	}
+	dir := Scratch("dsn")
+	defer os.RemoveAll(dir)
+	conf := viper.New()
+	conf.Set(config.SqliteDBPath, dir+"/db")
+	conf.Set(config.SQLDBWalMode, wal)
+	p := pegnet.New(conf)
+	if err := p.Init(); err != nil {
+		panic("harness: cannot learn the connection settings: " + err.Error())
+	}
+	m := readPragmas(p.DB)
+	p.DB.Close()
+	connLearned[wal] = m
+	return m
+}
+
+func connDSN(path string, wal bool) string {
+	m := connSettings(wal)
+	return fmt.Sprintf("%s.v4?_journal=%s&_sync=%s&_locking=%s&_busy_timeout=%s&_fk=%s&_cache_size=%s&_auto_vacuum=%s&_secure_delete=%s&_recursive_triggers=%s&_query_only=%s",
+		path, strings.ToUpper(m["journal_mode"]), m["synchronous"], strings.ToUpper(m["locking_mode"]), m["busy_timeout"], m["foreign_keys"], m["cache_size"], m["auto_vacuum"], m["secure_delete"], m["recursive_triggers"], m["query_only"])
+}
+
+// checkConn compares the settings of the wrapped connection with the learned ones.
+func checkConn(db *sqlw.DB, wal bool) {
+	want, got := connSettings(wal), readPragmas(db.DB)
+	for _, nm := range connPragmaNames {
+		w, okw := want[nm]
+		g, okg := got[nm]
+		if !okw || !okg {
+			continue // the setting could not be read (e.g. a damaged file): what the node does with such a file is its behaviour
+		}
+		if w != g {
+			panic(fmt.Sprintf("harness: the wrapped connection has PRAGMA %s = %q, the node's own connection %q", nm, got[nm], want[nm]))
+		}
+	}
 }
 
 // Continue builds a node on path WITHOUT running any start-up code (no table creation, no migrations, no
@@ -167,11 +230,7 @@ func Continue(path string, fk *fake.Node, hooks *sqlw.Hooks, wal bool) (*Daemon,
 	conf.Set(config.SQLDBWalMode, wal)
 	node.InitChainsFromConfig(conf)
 	n := &node.Pegnetd{FactomClient: node.FactomClientFromConfig(conf), Config: conf, Pegnet: pegnet.New(conf)}
-	dsn := path + ".v4"
-	if wal {
-		dsn += "?_journal=WAL&"
-	}
-	db := sqlw.Open(dsn, nil)
+	db := sqlw.Open(connDSN(path, wal), nil)
 	n.Pegnet.DB = db.DB
 	sync, err := n.Pegnet.SelectSynced(context.Background(), n.Pegnet.DB)
 	if err == sql.ErrNoRows {
